@@ -130,6 +130,11 @@ pub enum CExpr {
         index: usize,
         ty: Ty,
     },
+    /// a closure (of its environment struct type) as a value of its function type
+    EClosureFn {
+        closure: Box<ImmExpr>,
+        ty: Ty,
+    },
 }
 
 #[derive(Debug, Clone)]
@@ -198,6 +203,7 @@ fn cexpr_tast_ty(e: &CExpr) -> Ty {
         | CExpr::EDynCall { ty, .. }
         | CExpr::EGo { ty, .. }
         | CExpr::EProj { ty, .. }
+        | CExpr::EClosureFn { ty, .. }
         | CExpr::EConstrGet { ty, .. } => ty.clone(),
     }
 }
@@ -641,6 +647,17 @@ fn anf<'a>(
                 })
             }),
         ),
+        LiftExpr::EClosureFn { closure, ty: _ } => anf_imm(
+            anfenv,
+            gensym,
+            *closure,
+            Box::new(move |e| {
+                k(CExpr::EClosureFn {
+                    closure: Box::new(e),
+                    ty: e_ty,
+                })
+            }),
+        ),
     }
 }
 
@@ -992,6 +1009,10 @@ pub mod anf_renamer {
             anf::CExpr::EProj { tuple, index, ty } => anf::CExpr::EProj {
                 tuple: Box::new(rename_imm(*tuple, taken)),
                 index,
+                ty,
+            },
+            anf::CExpr::EClosureFn { closure, ty } => anf::CExpr::EClosureFn {
+                closure: Box::new(rename_imm(*closure, taken)),
                 ty,
             },
         }
